@@ -96,7 +96,7 @@ func coarseLoc(p string) string {
 var c03Flags = []Flags{
 	{},
 	{N: true, B: true},
-	{I: true, W: true, R: customReplacement},
+	{I: true, W: true, R: customReplacement + " \x1b[31m del\x7f bel\a vt\v \U000e0001 \u2028"},
 	{Y: true},
 	{Z: "^(fld|a|status|k)$"},
 	{N: true, B: true, I: true, W: true, Y: true},
